@@ -1,7 +1,7 @@
 #!/bin/bash
 # run every stored seed against the check of its property (scratch worktrees; nothing applied to /repo)
 cd /verif
-for d in seeded/*/; do
+for d in seeded/C*/; do
   s=$(basename $d); p=${s%-*}
   out=$(timeout 900 tools/seedcheck.sh $d $p 2>&1)
   ex=$(echo "$out" | grep -oE "exit=[0-9]+" | tail -1)
